@@ -5,7 +5,7 @@ RULE = ("mutation-based stream over valid SYN/SYN+ACK/ACK packets (byte flips, t
         "option bytes, inconsistent IHL / total length / data offset) plus random byte strings, each dissected as IPv4 or IPv6 and given "
         "to fingerprint_tcp / fingerprint_mtu / fingerprint_uptime; HTTP payloads mutated the same way (leading CR/LF, bare LF, folds, "
         "non-ASCII) given to fingerprint_http; every call under a 5 s alarm and a 4 GB address-space limit; outcome classes ok / "
-        "PacketError / other:<type> / TIMEOUT; where the model can dissect the input the ok/PacketError class is compared with it; "
+        "PacketError / other:<type> / TIMEOUT (incl. 64 KB payloads with long runs of blanks / colons / CRs / brackets, 4000 headers, 2500 continuation lines); where the model can dissect the input the ok/PacketError class is compared with it; "
         "exhaustive: all option areas of length 4 over {0,1,2,3,4,5,8,255} (4096) and all (kind,len) prefixes")
 GEN_TIE = ['options', 'http', 'httpx']     # TCPOptions.parse (the option walker's while loop) is also TRANSLATED from /repo's source on every run and proved equal to the model
 ASSUMPTIONS = ["byte strings Scapy itself refuses to dissect (exception inside scapy.layers) are outside the quantifier and counted separately",
@@ -101,6 +101,17 @@ def generate(R, tier):
         yield {"stream": "http", "http": bytes(b).hex()}
     for m in H.line_shapes():
         yield {"stream": "http-line-shapes", "http": m.hex()}
+    # LARGE payloads (~64 KB): the work must stay proportional to the size whatever the bytes are (each case has CASE_TIMEOUT seconds)
+    big = 60000
+    for eol in (b"\r\n", b"\n"):
+        first = b"GET / HTTP/1.1" + eol
+        for body in (b"X-Padding: a" + b" " * big + b"b", b"X-Padding: a" + b"\t " * (big // 2) + b"b", b"X-Padding:" + b" " * big, b"X: " + b":" * big,
+                     b"X" * big + b": v", b"X-Padding: a" + b" " * big, b" " * big + b"X: v", b"X: a" + eol + (b" " + b"b" * 20 + eol) * 2500 + b"Y: z",
+                     eol.join(b"H%d: v%d" % (i, i) for i in range(4000)), b"X: a" + b"\r" * big + b"b", b"X: " + b"a b " * (big // 4), b"X: " + b"[," * (big // 2)):
+            yield {"stream": "http-big", "http": (first + body + eol + eol).hex()}
+        yield {"stream": "http-big", "http": (b"GET" + b" " * big + b"/ HTTP/1.1" + eol + b"Host: a" + eol + eol).hex()}
+        yield {"stream": "http-big", "http": (b"GET / HTTP/1.1" + b" " * big + eol + b"Host: a" + eol + eol).hex()}
+        yield {"stream": "http-big", "http": (b"HTTP/1.1 200 " + b"OK " * (big // 3) + eol + b"Server: a" + eol + eol).hex()}
     # packets that get as far as the window test of the database's mss*N signatures (everything else matches), for every peer-MSS argument
     for fl, sec_ttl in ((2, 64), (0x12, 64)):
         for mss in (100, 111, 1460):
@@ -119,6 +130,8 @@ def generate(R, tier):
 
 
 def model_line(c):
+    if c.get("stream") == "http-big":
+        return "read_payload -"          # (the extracted model is not built for speed; large payloads are judged on termination and exception class only)
     if "http" in c:
         return "read_payload " + (c["http"] or "-")
     return "extract %d 0 %s" % (c["v"], c["raw"] or "-")
@@ -217,6 +230,8 @@ def judge(c, ir, mr):
             return {"kind": "an exception other than PacketError escaped from fingerprint_" + k, "why": ir[k], "judged_by": "C04_fp_total / C04_http_total"}
     if "layout_len" in ir and ir["layout_len"] > ir["opt_bytes"]:
         return {"kind": "option layout has more entries than option bytes", "why": str(ir), "judged_by": "C04_layout_le"}
+    if c.get("stream") == "http-big":
+        return None
     if "http" in c:
         want = "ok" if isinstance(mr, dict) and "ok" in mr else "PacketError"
         if ir["http"] != want:
@@ -237,6 +252,8 @@ def judge(c, ir, mr):
 
 
 def shrink(c):
+    if c.get("stream") == "http-big":
+        return
     key = "http" if "http" in c else "raw"
     b = bytes.fromhex(c[key])
     for n in (8, 4, 1):
